@@ -24,7 +24,7 @@ const OTHER_MAC: [u8; 6] = [0x02, 0, 0, 0, 0, 0x99];
 
 const SRC_N: u64 = 8;
 const DST_N: u64 = 10;
-const PROTO_N: u64 = 10;
+const PROTO_N: u64 = 12;
 const CFG_N: u64 = 4;
 
 #[derive(Clone, Copy, Debug, PartialEq)]
@@ -63,6 +63,12 @@ enum Proto {
     TcpRst,
     TcpDataEstablished,
     Unknown,
+    /// IPv6 hop-by-hop header with an unrecognised option of type 10xxxxxx ("discard, always
+    /// send Parameter Problem") in front of a UDP datagram for the bound port; IPv4: as Unknown
+    HbhOptAlways,
+    /// the same with type 11xxxxxx ("discard, send Parameter Problem only if the destination is
+    /// not multicast")
+    HbhOptUnicastOnly,
 }
 #[derive(Clone, Copy, Debug, PartialEq)]
 enum L2 {
@@ -101,6 +107,8 @@ fn decode(mut i: u64) -> Cell {
         Proto::TcpRst,
         Proto::TcpDataEstablished,
         Proto::Unknown,
+        Proto::HbhOptAlways,
+        Proto::HbhOptUnicastOnly,
     ][take(PROTO_N) as usize];
     let dst = [
         DstC::Own,
@@ -487,6 +495,14 @@ pub fn cell_case(idx: u64, rng: &mut Rng, ctx: &Ctx) -> CaseOut {
             itcp::build(&src, &dst, &itcp::Seg { sport: PEER_PORT, dport: EST_PORT, seq: est_seq.0, ack: est_seq.1, flags: itcp::ACK | itcp::PSH, wnd: 4096, payload: payload.clone(), ..Default::default() }),
         ),
         Proto::Unknown => (0xfd, payload.clone()),
+        Proto::HbhOptAlways | Proto::HbhOptUnicastOnly if c.v6 => {
+            let ty = if c.proto == Proto::HbhOptAlways { 0x80 } else { 0xc0 } | (0x0a + rng.below(0x14) as u8);
+            let mut h = vec![ip::PROTO_UDP, 0, ty, 4];
+            h.extend_from_slice(&rng.bytes(4));
+            h.extend_from_slice(&build_udp(&src, &dst, sport, UDP_PORT, &payload));
+            (0, h)
+        }
+        Proto::HbhOptAlways | Proto::HbhOptUnicastOnly => (0xfd, payload.clone()),
     };
     let ip_packet = ip::build(&src, &dst, proto_no, 64, &l4);
     let frame = wrap_l2(&c, &dst, ip_packet);
@@ -562,6 +578,11 @@ pub fn cell_case(idx: u64, rng: &mut Rng, ctx: &Ctx) -> CaseOut {
             out.violate(Violation::new(
                 "reply:icmpv6-parameter-problem-unrecognized-next-header-to-multicast-destination",
                 format!("ICMPv6 Parameter Problem (unrecognized Next Header) sent in answer to a packet addressed to a multicast group. {}", what),
+            ));
+        } else if em.icmp_error && c.v6 && c.proto == Proto::HbhOptAlways && is_mcast_or_bcast_dst(&c) && !non_unicast_src(&c) && em.desc.iter().any(|d| d.starts_with("ICMPv6 type 4 code 2")) {
+            out.violate(Violation::new(
+                "reply:icmpv6-parameter-problem-option-type-10xxxxxx-to-multicast-destination",
+                format!("ICMPv6 Parameter Problem (unrecognized option of type 10xxxxxx) sent in answer to a packet addressed to a multicast group. {}", what),
             ));
         } else if em.icmp_error {
             out.violate(Violation::new(
